@@ -206,6 +206,16 @@ func (e *Engine) ResolveTypeWith(s string, pkgPath string, tv map[string]types.T
 			return nil, err
 		}
 		return types.NewSlice(t), nil
+	case strings.HasPrefix(s, "chan "):
+		el := strings.TrimSpace(s[5:])
+		if el == "struct{}" {
+			return types.NewChan(types.SendRecv, types.NewStruct(nil, nil)), nil
+		}
+		t, err := e.ResolveTypeWith(el, pkgPath, tv)
+		if err != nil {
+			return nil, err
+		}
+		return types.NewChan(types.SendRecv, t), nil
 	case strings.HasPrefix(s, "map["):
 		depth := 0
 		for i := 3; i < len(s); i++ {
